@@ -137,3 +137,23 @@ def lock_tlv_size(v):
 def rsvd_tlv_size(v):
     """number of reserved octets (0 means 256)"""
     return v[1] if v[1] > 0 else 256
+
+
+def t12_view_in(mem, off, end, a, b):
+    """like t12_view for layouts whose reserved range [a, b) lies INSIDE the message area behind the TLV header
+    (off + 4 <= a < b <= end): the value octets are the first n not-reserved octets from the start of the value"""
+    if off + 2 > end or mem[off] != 3:
+        return NO_NDEF
+    if mem[off + 1] < 255:
+        n = mem[off + 1]
+        s = off + 2
+    else:
+        if off + 4 > end:
+            return NO_NDEF
+        n = mem[off + 2] * 256 + mem[off + 3]
+        s = off + 4
+    if s + n <= a:
+        return mem[s:s + n]
+    if s + n + (b - a) > end:
+        return NO_NDEF
+    return mem[s:a] + mem[b:b + n - (a - s)]
